@@ -433,8 +433,8 @@ View == <<m, a>>
 \* signatures the BUG switches stand for (the trace check lists the same defects in known_findings.json)
 Allowed ==
   (IF BUG_CREATE_LEAK THEN {"C08|create-failed|stale-number-resolves", "C08|create-failed|inode-objects-surplus", "C08|create-failed|refcount",
-                            "C08|create-failed|inode-not-released", "C15|mc|create-failed|fds", "C15|mc|create-failed|inodes"} ELSE {})
-  \cup (IF BUG_PROBE_LEAK THEN {"C15|mc|destroy|fds", "C15|mc|init|fds", "C15|mc|destroy-failed|fds", "C15|mc|init-failed|fds"} ELSE {})
+                            "C08|create-failed|inode-not-released", "C15|mc|any|fds", "C15|mc|any|inodes"} ELSE {})
+  \cup (IF BUG_PROBE_LEAK THEN {"C15|mc|any|fds"} ELSE {})
   \cup (IF BUG_DOTS THEN {"C16|pt|empty-before-end|dots-fill-buffer"} ELSE {})
 NoViol == a.viol \subseteq Allowed
 \* the client-visible state is what A says: a number resolves iff its count is positive (no ghosts) -- a direct
